@@ -165,7 +165,7 @@ def decoys(spec, f, in_class):
     cst = " const" if f.const else ""
 
     def text(params, ret):
-        body = 'std::printf("C %d DECOY\\n"); %s' % (f.fid, "" if ret == "void" else "return %s();" % ret)
+        body = 'std::printf("C %d DECOY\\n"); %s' % (f.fid, "" if ret == "void" else "return (%s)0;" % ret)
         return "%s%s %s(%s)%s { %s }" % (pre, ret, f.name, ", ".join(params), cst, body)
     if f.template:
         tm = cxxgen.Spec.tmap(f, f.template[0])
@@ -185,7 +185,8 @@ def decoys(spec, f, in_class):
 
 def subject_header(spec):
     out = ["#ifndef SUBJECT_%s_HPP" % spec.name.upper(), "#define SUBJECT_%s_HPP" % spec.name.upper(),
-           "#include <cstdio>", "#include <cstring>", "#include <string>",
+           "#include <cstdio>", "#include <cstring>", "#include <string>", "#include <cstdint>", "#include <cstddef>",
+           "static inline void sh_f(float v) { unsigned int b; std::memcpy(&b, &v, 4); std::printf(\"%08x\", b); }",
            "static inline void sh_d(double v) { unsigned long long b; std::memcpy(&b, &v, 8); std::printf(\"%016llx\", b); }",
            'static inline void sh_t(int v) { std::printf("%lld", (long long)v); }',
            'static inline void sh_t(long v) { std::printf("L%lld", (long long)v); }',
@@ -268,7 +269,7 @@ def emit_call(E, f, cname, ndef, tt, rnd, self_obj=None):
         t = tm.get(p.t, p.t)
         tpl = p.t in tm
         if p.fam == "native":
-            val = pick(DBL if t == "double" else INT_T[t], rnd, i)
+            val = pick(cxxgen.vals_of(t), rnd, i)
             vals[p.name] = val
             if tpl:
                 # sh_t marks the instantiated type: plain for int, L for long, 16 hex digits for double
@@ -463,7 +464,7 @@ def emit_call(E, f, cname, ndef, tt, rnd, self_obj=None):
 def build_driver(spec, headers, rounds):
     E = Emit(spec)
     P = spec.c_prefix()
-    E.c += ["static void *lastaddr[4096];"]
+    E.c += ["static void *lastaddr[4096];", "static void sh_f(float v) { unsigned int b; memcpy(&b, &v, 4); printf(\"%08x\", b); }"]
     E.c += ["static int cbk0(int x, double y) { (void)y; return x * 2 + 1; }", "static int cbk1(int x, double y) { (void)y; return x - 5; }"]
     E.c += ["static void sh_d(double v) { unsigned long long b; memcpy(&b, &v, 8); printf(\"%016llx\", b); }", "int main(void) {",
             "setvbuf(stdout, NULL, _IONBF, 0);"]
@@ -531,7 +532,7 @@ def build_driver(spec, headers, rounds):
         E.exp += ["DEL %d" % IDS[1], "R %d ret=1" % dtor.fid]
         E.ctx += [{"function": "%s<%s>::dtor (%s)" % (spec.tclass[0], t, n_dtor), "values": {"this": IDS[1]}, "func": dtor}] * 2
     E.c += ["return 0;", "}"]
-    head = ["#include <stdio.h>", "#include <string.h>", "#include <stdbool.h>"] + ['#include "%s"' % h for h in headers]
+    head = ["#include <stdio.h>", "#include <string.h>", "#include <stdbool.h>", "#include <stdint.h>", "#include <stddef.h>"] + ['#include "%s"' % h for h in headers]
     return "\n".join(head + E.c) + "\n", E
 
 
